@@ -863,6 +863,13 @@ func (l *commitLog) Clean() error {
 	// compaction ran, we need to regenerate the cache using the one returned
 	// from compaction.
 	if epochCache != nil {
+		// The cache returned from compaction was rebuilt from what the clean
+		// read. A leader epoch that began while the clean was running, in the
+		// newest segment the clean saw (which is not compacted, so appends
+		// continue there), is only in the live cache: take it over, or
+		// replacing the cache would drop it from the history.
+		epochCache.Rebase(l.leaderEpochCache, // nolint: errcheck
+			oldSegments[len(oldSegments)-1].BaseOffset)
 		err = l.leaderEpochCache.Replace(epochCache)
 	} else {
 		err = l.leaderEpochCache.ClearEarliest(l.segments[0].BaseOffset)
